@@ -4,7 +4,7 @@
    extend tables (implementation or generic fallback); the only constructors that reach a diverging arm
    are the enumerated ones handled elsewhere;  2. sibling arms of the strategy / type dispatches all use
    the slicing parameters (ARM-UNIFORM: 'one arm forgot + offset')."""
-from . import facts as factsmod, flow, dtm, arms, nullguard
+from . import facts as factsmod, flow, dtm, arms, nullguard, pairs
 from .mirlib import Body
 
 TOTAL = [
@@ -95,6 +95,7 @@ def run(ck, tier):
     tab = [e for e in arms.load_table() if e["fn"].startswith(("arrow_select::", "arrow_data::transform"))]
     arms.check(ck, F, "C03.arm-uniform", tab)
     nullguard.check(ck, F, "C03.null-guarded-access", [f for f in nullguard.load_table() if f.startswith("arrow_select::")], 4)
+    pairs.check_cross(ck, F, "C03.bitcopy-offset-slots", ["arrow_select", "arrow_data"], 2)
     ck.note("Decided: routing totality of 9 selection / construction dispatch tables over all 41 DataType constructors, arm uniformity of slicing parameters. "
             "Not decided: that exactly the selected rows are moved, coalescer batch sizes (value / history level).")
     return F.info
